@@ -46,6 +46,9 @@ def jobs(tier):
             out.append(("create.%s.mixedcase2" % which, "job_create", dict(which=which, shape="mixedcase2", K=2, edits=0, mode="sizes")))
     for version in (1, 3):
         out.append(("edit-foreign-layout.v%d" % version, "job_edit_foreign", dict(version=version)))
+    for which in ("2a", "2c", "3a", "3c", "1"):       # names that are not stable under Unicode normalisation, with siblings in between
+        for shape in ("flat2~decomposed", "nested3~decomposed"):
+            out.append(("create.%s.%s" % (which, shape), "job_create", dict(which=which, shape=shape, K=1, edits=0, mode="sizes")))
     for which in ("1", "2a", "3a") + (() if q else ("2c", "3c")):
         out.append(("create-unencodable.%s" % which, "job_create_unencodable", dict(which=which, unenc=True)))
     for version in (2, 3):
@@ -484,6 +487,30 @@ def replay(params, model, notes, workdir, seed):
     from harness import c07
     mods = cr.real_torrentfile()
     bad = []
+    if params.get("unenc"):
+        which = params["which"]
+        root, data = cr.materialize(workdir, "flat2", cr.concrete_sizes("flat2", model), seed)
+        out = os.path.join(workdir, "x.torrent")
+        pre = int(model.get("outfile-exists", 0))
+        old = refconc.bencode({"announce": "http://old/a", "info": {"length": 1, "name": "old", "piece length": 16384, "pieces": b"x" * 20}})
+        if pre:
+            with open(out, "wb") as f:
+                f.write(old)
+        where = ["comment", "source", "announce"][int(model.get("bad-field", 0))]
+        kw = {where: 1.5} if where != "announce" else {"announce": ["http://t/a", 2.5]}
+        try:
+            with contextlib.redirect_stdout(io.StringIO()):
+                t = cr.real_create(which, path=root, piece_length=16384, outfile=out, **kw)
+                t.write()
+        except Exception:  # noqa: BLE001
+            pass
+        if not os.path.exists(out):
+            return [] if not pre else ["C06.failed-create.complete (output removed)"]
+        try:
+            refconc.bdecode_strict(open(out, "rb").read())
+        except refconc.BencodeError as ex:
+            return ["C06.failed-create.complete (%s)" % ex]
+        return []
     if "which" in params:
         which, shape = params["which"], params["shape"]
         version = {"1": 1, "2a": 2, "2c": 2, "3a": 3, "3c": 3}[which]
@@ -529,30 +556,6 @@ def replay(params, model, notes, workdir, seed):
             if bad:
                 return bad
         return bad
-    if params.get("unenc"):
-        which = params["which"]
-        root, data = cr.materialize(workdir, "flat2", cr.concrete_sizes("flat2", model), seed)
-        out = os.path.join(workdir, "x.torrent")
-        pre = int(model.get("outfile-exists", 0))
-        old = refconc.bencode({"announce": "http://old/a", "info": {"length": 1, "name": "old", "piece length": 16384, "pieces": b"x" * 20}})
-        if pre:
-            with open(out, "wb") as f:
-                f.write(old)
-        where = ["comment", "source", "announce"][int(model.get("bad-field", 0))]
-        kw = {where: 1.5} if where != "announce" else {"announce": ["http://t/a", 2.5]}
-        try:
-            with contextlib.redirect_stdout(io.StringIO()):
-                t = cr.real_create(which, path=root, piece_length=16384, outfile=out, **kw)
-                t.write()
-        except Exception:  # noqa: BLE001
-            pass
-        if not os.path.exists(out):
-            return [] if not pre else ["C06.failed-create.complete (output removed)"]
-        try:
-            refconc.bdecode_strict(open(out, "rb").read())
-        except refconc.BencodeError as ex:
-            return ["C06.failed-create.complete (%s)" % ex]
-        return []
     if params.get("mixed"):
         from harness import c07 as _c07
         version = params["version"]
